@@ -90,6 +90,9 @@ type parser struct {
 	prefixParseFns map[token.Type]prefixParseFn
 	infixParseFns  map[token.Type]infixParseFn
 	inForBlock     bool
+	// parsing the iterable of a for: the { after it opens the loop's body, it
+	// is not the block of a call the iterable ends in
+	inIterable bool
 }
 
 func (p *parser) parseProgram() *ast.Program {
@@ -472,15 +475,9 @@ func (p *parser) parseForExpression() ast.Expression {
 	}
 
 	p.nextToken()
+	p.inIterable = true
 	expression.Iterable = p.parseExpression(LOWEST)
-
-	if ce, ok := expression.Iterable.(*ast.CallExpression); ok {
-		if ce.Block != nil {
-			expression.Block = ce.Block
-			ce.Block = nil
-			return expression
-		}
-	}
+	p.inIterable = false
 
 	if !p.expectPeek(token.LBRACE) {
 		return nil
@@ -571,6 +568,10 @@ func (p *parser) parseElseIfExpression() *ast.ElseIfExpression {
 func (p *parser) parseBlockStatement() *ast.BlockStatement {
 	block := &ast.BlockStatement{TokenAble: ast.TokenAble{Token: p.curToken}}
 	block.Statements = []ast.Statement{}
+
+	inIterable := p.inIterable
+	p.inIterable = false
+	defer func() { p.inIterable = inIterable }()
 
 	p.nextToken()
 
@@ -679,9 +680,12 @@ func (p *parser) parseCallExpression(function ast.Expression) ast.Expression {
 		}
 	}
 
+	inIterable := p.inIterable
+	p.inIterable = false
 	exp.Arguments = p.parseExpressionList(token.RPAREN)
+	p.inIterable = inIterable
 
-	if p.peekTokenIs(token.LBRACE) {
+	if p.peekTokenIs(token.LBRACE) && !p.inIterable {
 		p.nextToken()
 		exp.Block = p.parseBlockStatement()
 	}
